@@ -6,7 +6,10 @@ import (
 
 	bbloom "github.com/ipfs/bbloom"
 	"github.com/ipfs/boxo/internal/verifrt"
+	"github.com/ipfs/boxo/ipld/unixfs"
+	pb "github.com/ipfs/boxo/ipld/unixfs/pb"
 	cid "github.com/ipfs/go-cid"
+	ipld "github.com/ipld/go-ipld-prime"
 	mh "github.com/multiformats/go-multihash"
 )
 
@@ -48,7 +51,8 @@ type zzvDag struct {
 	etype  [zzvMaxN]uint8 // EntityType
 	tk     [zzvMaxN]int8
 	rev    bool
-	stopAt int // emit answers false at the stopAt-th emission (0 = never)
+	stopAt int  // emit answers false at the stopAt-th emission (0 = never)
+	cancel bool // ... or, instead, cancels the walk's context there and answers true
 	// logs
 	fetched  []int
 	locCalls []int
@@ -117,6 +121,9 @@ func zzvNewDag(n int, f zzvFeatures) *zzvDag {
 	d.rev = verifrt.NondetBool("reverseLinks")
 	if f.stop {
 		d.stopAt = verifrt.NondetRange("stopAt", 0, n)
+		if d.stopAt != 0 {
+			d.cancel = verifrt.NondetBool("stopByCancel")
+		}
 	}
 	return d
 }
@@ -328,6 +335,7 @@ func zzvRunWalk(n int, f zzvFeatures) {
 	tracker := NewMapTracker()
 	var emitted []int
 	count := 0
+	var cancelCtx context.CancelFunc
 	emit := func(c cid.Cid) bool {
 		r, ok := d.idx[c]
 		if !ok {
@@ -336,7 +344,14 @@ func zzvRunWalk(n int, f zzvFeatures) {
 		}
 		emitted = append(emitted, r)
 		count++
-		return !(d.stopAt != 0 && count == d.stopAt)
+		if d.stopAt != 0 && count == d.stopAt {
+			if d.cancel {
+				cancelCtx()
+				return true
+			}
+			return false
+		}
+		return true
 	}
 	opts := []Option{WithVisitedTracker(tracker)}
 	if f.local {
@@ -344,10 +359,17 @@ func zzvRunWalk(n int, f zzvFeatures) {
 	}
 	run := func(root int) error {
 		count = 0
+		var ctx context.Context
+		ctx, cancelCtx = context.WithCancel(context.Background())
+		defer cancelCtx()
 		if f.entity {
-			return WalkEntityRoots(context.Background(), d.cidOf(root), d.fetchNode, emit, opts...)
+			return WalkEntityRoots(ctx, d.cidOf(root), d.fetchNode, emit, opts...)
 		}
-		return WalkDAG(context.Background(), d.cidOf(root), d.fetchLinks, emit, opts...)
+		return WalkDAG(ctx, d.cidOf(root), d.fetchLinks, emit, opts...)
+	}
+	// a walk ends with nil, or with the context's error when emit cancelled it
+	okErr := func(err error, stopped bool) bool {
+		return err == nil || (d.cancel && stopped && err == context.Canceled)
 	}
 	ref := &zzvRef{d: d, entity: f.entity}
 
@@ -356,7 +378,7 @@ func zzvRunWalk(n int, f zzvFeatures) {
 	ref.walk(root1)
 	n1 := len(emitted)
 	verifrt.Observe("emitted1", n1)
-	verifrt.Assert("C13.walk.returns-nil", err1 == nil)
+	verifrt.Assert("C13.walk.returns-nil", okErr(err1, ref.stopped))
 	verifrt.Assert("C13.walk.preorder-emission-sequence", zzvEq(emitted, ref.emitted))
 
 	if f.two {
@@ -366,7 +388,7 @@ func zzvRunWalk(n int, f zzvFeatures) {
 		err2 := run(root2)
 		ref.walk(root2)
 		verifrt.Observe("emitted2", len(emitted)-n1)
-		verifrt.Assert("C13.walk.returns-nil", err2 == nil)
+		verifrt.Assert("C13.walk.returns-nil", okErr(err2, ref.stopped))
 		verifrt.Assert("C13.walk.second-walk-skips-what-the-tracker-saw", zzvEq(emitted, ref.emitted))
 	}
 
@@ -784,3 +806,135 @@ func HarnessC13BloomStepExact() { zzvRunBloomStep(false) }
 
 // HarnessC13BloomStepFP: inductive step with filters that may report arbitrary false positives.
 func HarnessC13BloomStepFP() { zzvRunBloomStep(true) }
+
+// ---------------------------------------------------------------------------------------------------
+// detectEntityType: UnixFS type field -> entity type
+// ---------------------------------------------------------------------------------------------------
+
+// zzvPBNode is the part of a decoded dag-pb node that detectEntityType looks at.
+type zzvPBNode struct {
+	ipld.Node
+	mode int // 0 Data present, 1 no Data field, 2 Data absent, 3 Data null, 4 Data is not bytes
+	data []byte
+}
+
+type zzvDataField struct {
+	ipld.Node
+	mode int
+	data []byte
+}
+
+func (n *zzvPBNode) Kind() ipld.Kind { return ipld.Kind_Map }
+func (n *zzvPBNode) LookupByString(key string) (ipld.Node, error) {
+	if key != "Data" || n.mode == 1 {
+		return nil, errors.New("zzv: no such field")
+	}
+	return &zzvDataField{mode: n.mode, data: n.data}, nil
+}
+func (f *zzvDataField) IsAbsent() bool { return f.mode == 2 }
+func (f *zzvDataField) IsNull() bool   { return f.mode == 3 }
+func (f *zzvDataField) AsBytes() ([]byte, error) {
+	if f.mode == 4 {
+		return nil, errors.New("zzv: not bytes")
+	}
+	return f.data, nil
+}
+
+// Under the engine unixfs.FSNodeFromBytes (protobuf decoding) is bound to this stub, which understands exactly the
+// encoding the harness produces: field 1 (Type) as a one-byte varint, nothing else.
+func zzvFSNodeFromBytes(b []byte) (*unixfs.FSNode, error) {
+	if len(b) != 2 || b[0] != 0x08 {
+		return nil, errors.New("zzv: not a UnixFS Data message")
+	}
+	return unixfs.NewFSNode(pb.Data_DataType(b[1])), nil
+}
+
+// HarnessC13DetectEntity: for every codec class, every shape of the Data field and every UnixFS type value the
+// detected entity type is the documented one (file and raw -> file; directory; HAMT shard; symlink; else unknown).
+func HarnessC13DetectEntity() {
+	codecs := []uint64{cid.Raw, cid.DagProtobuf, cid.DagCBOR}
+	codec := codecs[verifrt.NondetRange("codec", 0, 2)]
+	m, err := mh.Encode(zzvDigest(1), mh.SHA2_256)
+	if err != nil {
+		panic(err)
+	}
+	c := cid.NewCidV1(codec, m)
+	if codec == cid.DagProtobuf && verifrt.NondetBool("cidv0") {
+		c = cid.NewCidV0(m)
+	}
+	mode := verifrt.NondetRange("dataMode", 0, 5)
+	t := verifrt.NondetU8("unixfsType")
+	verifrt.Assume(t <= 5)
+	data := []byte{0x08, t}
+	if mode == 5 {
+		data = []byte{0x12, 0x00} // a Data message without the required Type field
+		if !verifrt.Symbolic() {
+			data = []byte{0xff}
+		}
+	}
+	got := detectEntityType(c, &zzvPBNode{mode: mode, data: data})
+	verifrt.Observe("entity", int(got))
+	want := EntityUnknown
+	switch {
+	case codec == cid.Raw:
+		want = EntityFile
+	case codec != cid.DagProtobuf, mode != 0:
+		want = EntityUnknown
+	default:
+		wants := [6]EntityType{
+			pb.Data_Raw:       EntityFile,
+			pb.Data_Directory: EntityDirectory,
+			pb.Data_File:      EntityFile,
+			pb.Data_Metadata:  EntityUnknown,
+			pb.Data_Symlink:   EntitySymlink,
+			pb.Data_HAMTShard: EntityHAMTShard,
+		}
+		for k := uint8(0); k <= 5; k++ {
+			if t == k {
+				want = wants[k]
+			}
+		}
+	}
+	verifrt.Assert("C13.entity.type-follows-unixfs-type", got == want)
+	verifrt.Reach("end")
+}
+
+// HarnessC13BloomNew: constructor validation and parameter derivation (concrete arithmetic, a few rates).
+func HarnessC13BloomNew() {
+	zzvAbsMode = false
+	zzvKeySeq = 0
+	items := []uint{0, MinBloomCapacity - 1, MinBloomCapacity, MinBloomCapacity + 1}[verifrt.NondetRange("items", 0, 3)]
+	rates := []uint{0, 1, 2, 3, 5, 6, 1000, DefaultBloomFPRate, 10_000_000, 1 << 32}
+	rate := rates[verifrt.NondetRange("rate", 0, len(rates)-1)]
+	bt, err := NewBloomTracker(items, rate)
+	verifrt.Observe("ok", err == nil)
+	wantErr := items < MinBloomCapacity || rate == 0
+	verifrt.Assert("C13.bloom.new.rejects-bad-parameters", (err != nil) == wantErr)
+	if err != nil {
+		verifrt.Assert("C13.bloom.new.no-tracker-on-error", bt == nil)
+		verifrt.Reach("end")
+		return
+	}
+	verifrt.Observe("hashLocs", bt.hashLocs)
+	verifrt.Observe("bitsPerElem", bt.bitsPerElem)
+	// k = round(log2(rate)), at least 1:  2^(2k-1) <= rate^2 < 2^(2k+1)
+	k := uint64(bt.hashLocs)
+	r2 := uint64(rate) * uint64(rate) // rate <= 2^32: no overflow except 2^32 itself, handled below
+	okK := k >= 1
+	if rate == 1<<32 {
+		okK = k == 32
+	} else if rate >= 2 {
+		okK = okK && (uint64(1)<<(2*k-1)) <= r2 && r2 < (uint64(1)<<(2*k+1))
+	} else {
+		okK = k == 1
+	}
+	verifrt.Assert("C13.bloom.new.hash-count-is-rounded-log2", okK)
+	// bits per element = ceil(k / ln 2): the smallest b with b*ln2 >= k  (ln 2 = 0.693147180559945...)
+	b := uint64(bt.bitsPerElem)
+	const ln2e15 = 693147180559945
+	verifrt.Assert("C13.bloom.new.bits-per-element", b*ln2e15+b >= k*1_000_000_000_000_000 && (b-1)*ln2e15+(b-1) < k*1_000_000_000_000_000)
+	verifrt.Assert("C13.bloom.new.initial-state", len(bt.chain) == 1 && bt.lastCap == uint64(items) && bt.Count() == 0 && bt.Deduplicated() == 0)
+	c := zzvKeyCid(4)
+	verifrt.Assert("C13.bloom.new.first-visit", !bt.Has(c) && bt.Visit(c) && bt.Has(c) && !bt.Visit(zzvAltCid(4)) && bt.Count() == 1 && bt.Deduplicated() == 1)
+	verifrt.Reach("end")
+}
